@@ -143,15 +143,30 @@ func RunC14(ch *core.Chooser, env *Env) *Outcome {
 	out := newOutcome()
 	p := drawConcPlan(ch, env, 0, 32, workload.AllKinds)
 
-	answers, seqSteps, perr := p.reference(env)
-	if perr != "" {
-		out.Invalid, out.InvalidReason = true, perr
-		return out
-	}
+	// In half of the runs the sequential reference is computed AFTER the
+	// concurrent execution: state the library keeps outside its engines
+	// (package-level caches) is then cold when the tasks run, instead of
+	// having been filled by the reference on the main goroutine.
+	refAfter := ch.Intn("c14.refafter", 2) == 1
+	var answers []string
 	total := 0
-	for _, ops := range p.tasks {
-		for _, o := range ops {
-			total += seqSteps[o] + 1
+	if !refAfter {
+		var seqSteps []int
+		var perr string
+		answers, seqSteps, perr = p.reference(env)
+		if perr != "" {
+			out.Invalid, out.InvalidReason = true, perr
+			return out
+		}
+		for _, ops := range p.tasks {
+			for _, o := range ops {
+				total += seqSteps[o] + 1
+			}
+		}
+	} else {
+		// step budget from a generous per-query estimate
+		for _, ops := range p.tasks {
+			total += 120 * len(ops)
 		}
 	}
 	p.cfg = core.DrawSchedConfig(ch, total)
@@ -234,6 +249,13 @@ func RunC14(ch *core.Chooser, env *Env) *Outcome {
 	case res.StepCap:
 		out.Violation = &Violation{Class: "no-progress", Detail: fmt.Sprintf("run exceeded its step cap %d (50x the sequential step count)", p.cfg.StepCap)}
 		return out
+	}
+	if refAfter {
+		var perr string
+		if answers, _, perr = p.reference(env); perr != "" {
+			out.Invalid, out.InvalidReason = true, perr
+			return out
+		}
 	}
 	for i := range p.tasks {
 		for j, o := range p.tasks[i] {
